@@ -523,6 +523,64 @@ theorem widthOK_iff (w : Nat) (p : Page) :
       | paragraph t => rw [he] at h1; simpa using h1
       | labeled l t q a => rw [he] at h1; simpa using h1
 
+/-! ### Pages rendered at an outer indentation -/
+
+/-- the outer indentation moves every element and the alignment's offset alike: the columns an
+element needs grow by exactly the indentation -/
+theorem need_shift (off ind k : Nat) (e : Element) (he : e ≠ .emptyLine) :
+    need (off + k) (ind + k) e = need off ind e + k := by
+  cases e with
+  | emptyLine => exact absurd rfl he
+  | paragraph t => simp only [need]
+  | labeled l t p a =>
+    cases a
+    · simp only [need, textOffset, Bool.false_eq_true, if_false]; omega
+    · simp only [need, textOffset, if_true]; omega
+
+theorem widthOKAt_iff (w k : Nat) (p : Page) :
+    widthOKAt w k p = true ↔ ∀ ie ∈ p, ie.2 = .emptyLine ∨ need (align p) ie.1 ie.2 + k + 2 ≤ w := by
+  unfold widthOKAt
+  rw [List.all_eq_true]
+  constructor
+  · intro h ie hie
+    have := h ie hie
+    cases he : ie.2 with
+    | emptyLine => left; rfl
+    | paragraph t => right; rw [he] at this; simpa using this
+    | labeled l t q a => right; rw [he] at this; simpa using this
+  · intro h ie hie
+    rcases h ie hie with h1 | h1
+    · rw [h1]
+    · cases he : ie.2 with
+      | emptyLine => rfl
+      | paragraph t => rw [he] at h1; simpa using h1
+      | labeled l t q a => rw [he] at h1; simpa using h1
+
+theorem mem_shift (k : Nat) (p : Page) (ie : Nat × Element) (h : ie ∈ shift k p) :
+    ∃ i, (i, ie.2) ∈ p ∧ ie.1 = i + k := by
+  unfold shift at h
+  obtain ⟨x, hx, rfl⟩ := List.mem_map.mp h
+  exact ⟨x.1, hx, rfl⟩
+
+theorem elemOK_shift (w off k : Nat) (p : Page)
+    (h : ∀ ie ∈ p, wrapText ie.2 ≠ some none ∧ (ie.2 = .emptyLine ∨ need off ie.1 ie.2 + k + 2 ≤ w)) :
+    ∀ ie ∈ shift k p, ElemOK w (off + k) ie := by
+  intro ie hie
+  obtain ⟨i, hi, e1⟩ := mem_shift k p ie hie
+  obtain ⟨h1, h2⟩ := h _ hi
+  refine ⟨h1, ?_⟩
+  rcases h2 with h2 | h2
+  · left; exact h2
+  · by_cases he : ie.2 = .emptyLine
+    · left; exact he
+    · right
+      rw [e1, need_shift off i k ie.2 he]
+      simpa using h2
+
+theorem shift_zero (p : Page) : shift 0 p = p := by
+  unfold shift
+  simp
+
 /-! ### Every text of a help page is a string -/
 
 def AllText (p : Page) : Prop := ∀ ie ∈ p, wrapText ie.2 ≠ some none
